@@ -370,6 +370,37 @@ def deep_cases(rng):
     return cases
 
 
+def decl_cases(rng, n):
+    """interface declaration lists in source order (forward references allowed), about half of them
+    containing an extends cycle (self loop, 2-cycle, longer, reached through a second parent)"""
+    fixed = [
+        [("P", ["Q"]), ("Q", ["P"])],
+        [("S", ["S"])],
+        [("P", ["Q"]), ("Q", ["R"]), ("R", ["P"])],
+        [("A", []), ("B", ["A"]), ("C", ["B"]), ("A2", ["C"])],
+        [("L", ["J", "K"]), ("J", ["I"]), ("K", ["I"]), ("I", [])],
+        [("I", []), ("J", ["I"]), ("K", ["I", "J"]), ("M", ["K", "I"])],
+        [("X", ["Y", "Z"]), ("Y", []), ("Z", ["W"]), ("W", ["X"])],
+    ]
+    cases = [{"decls": d} for d in fixed]
+    for _ in range(n):
+        m = rng.randint(2, 6)
+        names = ["D%d" % k for k in range(m)]
+        order = names[:]
+        rng.shuffle(order)
+        decls = []
+        for k, nm in enumerate(order):
+            ext = [x for x in names if x != nm and rng.random() < 0.3]
+            if rng.random() < 0.05:
+                ext.append(nm)
+            rng.shuffle(ext)
+            decls.append((nm, ext))
+        cases.append({"decls": decls})
+    for c in cases:
+        c["src"] = "".join("interface %s%s {}\n" % (nm, (" extends " + ", ".join(ext)) if ext else "") for nm, ext in c["decls"]) + 'echo "ok\n";\n'
+    return cases
+
+
 def run_impl(binary, srcs):
     inp = "\n".join(json.dumps({"src": s}) for s in srcs) + "\n"
     p = subprocess.run([binary], input=inp, stdout=subprocess.PIPE, stderr=subprocess.PIPE, text=True, timeout=900)
@@ -407,8 +438,35 @@ def main(ck):
         else:
             cases += seeded(rng, 4000, 6000)
 
+    dcases = [] if ck.replay else decl_cases(rng, 300 if ck.tier == "quick" else 5000)
+    # class extends cycles cannot be written at all: the parent must already be declared
+    ccyc = [] if ck.replay else ["class X extends Y {}\nclass Y extends X {}\necho \"ok\\n\";\n", "class X extends X {}\necho \"ok\\n\";\n"]
     srcs = [s_script(c["h"], c["probes"]) if c["script"] == "s" else d_script(c["h"], c["probes"]) for c in cases]
-    outs, rc, err = run_impl(binary, srcs)
+    outs, rc, err = run_impl(binary, srcs + [c["src"] for c in dcases] + ccyc)
+    if len(outs) == len(srcs) + len(dcases) + len(ccyc):
+        douts, couts = outs[len(srcs):len(srcs) + len(dcases)], outs[len(srcs) + len(dcases):]
+        outs = outs[:len(srcs)]
+        dterms = []
+        for c, o in zip(dcases, douts):
+            acc = o["outcome"] == "ok" and o["out"].strip() == "ok"
+            c["accepted"] = acc
+            dterms.append("(%s, %s)" % (coq_list('("%s", {| i_extends := %s; i_methods := [] |})' % (nm, coq_list(q(x) for x in ext)) for nm, ext in c["decls"]),
+                                        "true" if acc else "false"))
+        dbad = ck.eval_cases("dcases", HEADER, dterms, "check_dcase", shard=200) if dterms else {}
+        for j, cls in sorted(dbad.items(), key=lambda kv: len(dcases[kv[0]]["decls"])):
+            c = dcases[j]
+            rep = {"case": {"decls": c["decls"]}, "script": c["src"], "accepted": c["accepted"], "clauses": cls}
+            if 2 in cls:
+                ck.violation("decl:interface-%s" % ("cycle-accepted" if c["accepted"] else "acyclic-refused"),
+                             dict(rep, clause="declared_interfaces_stay_acyclic / cyclic_declaration_refused"))
+            if 1 in cls:
+                ck.broken.append("correspondence:C08.declare")
+                if 2 not in cls:
+                    ck.violation("tie:decl", dict(rep, clause="model vs implementation (tie)"))
+        for src, o in zip(ccyc, couts):
+            if o["outcome"] == "ok" and "ok" in o["out"]:
+                ck.violation("decl:class-cycle-accepted", {"script": src, "impl_out": o, "clause": "acyclic (class extends chains): the parent must be declared first"})
+        ck.cov["declaration_cases"] = {"interface_lists": len(dcases), "accepted": sum(1 for c in dcases if c["accepted"]), "class_cycles": len(ccyc)}
     if len(outs) != len(srcs):
         ck.log("harness returned %d results for %d cases rc=%d\n%s" % (len(outs), len(srcs), rc, err[-2000:]))
         ck.broken.append("harness-run")
